@@ -58,6 +58,11 @@ Fixpoint inter (a b : list key) : list key :=
 Fixpoint interp (a b : list (nat * key)) : list (nat * key) :=
   match a with [] => [] | (c, k) :: r => if memp c k b then (c, k) :: interp r b else interp r b end.
 
+Definition add (k : key) (l : list key) : list key := if mem k l then l else k :: l.
+
+Definition addp (c : nat) (ks : list key) (dp : list (nat * key)) : list (nat * key) :=
+  fold_right (fun k acc => if memp c k acc then acc else (c, k) :: acc) dp ks.
+
 (* ---------------------------------------------------------------- frame check *)
 (* does the program (re)bind a user key? *)
 Fixpoint writes_user (p : prog) : bool :=
@@ -100,10 +105,10 @@ Section Scan.
     match p with
     | Skip => Ok d
     | Rd f k => if defd cur d k then Ok d else Reject f k
-    | Wr f k => if String.eqb k CL then Reject f k else Ok (k :: fst d, snd d)
+    | Wr f k => if String.eqb k CL then Reject f k else Ok (add k (fst d), snd d)
     | Cp f dst src =>
         if String.eqb dst CL then Reject f dst
-        else if defd cur d src then Ok (dst :: fst d, snd d)
+        else if defd cur d src then Ok (add dst (fst d), snd d)
         else if is_user dst || mem dst E || mem dst (fst d) || memk dst (snd d) then Reject f dst
         else Ok d
     | Abort _ => Top
@@ -124,7 +129,7 @@ Section Scan.
             match scan (Some c) a d with
             | Reject f k => Reject f k
             | Top => Ok d
-            | Ok d' => Ok (fst d, app (map (pair c) (fst d')) (snd d))
+            | Ok d' => Ok (fst d, addp c (filter (fun k => negb (mem k (fst d))) (fst d')) (snd d))
             end
         end
     end.
